@@ -531,4 +531,74 @@ def sees (files : List FileObs) : Nat → String → String → Bool
     | none => false
     | some f => f.incs.contains h || f.incs.any fun i => files.any (·.name == i) && sees files fuel i h
 
+/-! ### where a call is put: the block structure of the emitted per-event method
+
+The call of a math function is emitted *after* its arguments were evaluated
+(`visit_function_ast`: `arg_reps = [get_rep_value(a) …]` first, then the value is given
+`self._gc.current_scope()`).  Evaluating an argument may emit statements and may leave the cursor
+inside new blocks (`First()` stays inside `for (…) { if (is_first) {`; `Count()`/`Sum()` open a
+loop and close it again, the value is the accumulator declared before the loop).  Only the block
+structure matters here: a line is an opening brace, a closing brace, a `for` header (its loop
+variable belongs to the block that follows) or any other statement, with the translator-generated
+variables it declares and mentions. -/
+
+inductive LineKind where
+  | openB | closeB | forL | stmt
+deriving Repr, DecidableEq
+
+structure CodeLine where
+  kind : LineKind
+  /-- the text of the line (white space removed, loop variables renamed as in the operand texts) -/
+  text : String
+  /-- generated variables the line declares (`forL`: the loop variable, alive in the next block) -/
+  decls : List String
+  /-- generated variables the line mentions (other than those it declares) -/
+  uses : List String
+deriving Repr, DecidableEq
+
+/-- what evaluating one argument of the call leaves in the emitted code -/
+inductive ArgShape where
+  /-- a constant, or a value of something already alive: no statement -/
+  | plain
+  /-- `X.First().m()` / `X.Select(…).First()`: collection `coll` and flag `flag` are declared, the
+  loop over `coll` with variable `v` and the guard `if (flag)` are opened and stay open -/
+  | first (coll flag v : String)
+  /-- `X.Count()` / `X.Select(…).Sum()`: `coll` and the accumulator `acc` are declared, the loop is
+  opened and closed again -/
+  | agg (coll acc v : String)
+deriving Repr
+
+/-- lines emitted before the call -/
+def ArgShape.before : ArgShape → List CodeLine
+  | .plain => []
+  | .first coll flag v =>
+    [⟨.stmt, "", [coll, flag], []⟩, ⟨.forL, "", [v], [coll]⟩, ⟨.openB, "", [], []⟩,
+     ⟨.stmt, "", [], [flag]⟩, ⟨.openB, "", [], []⟩, ⟨.stmt, "", [], [flag]⟩]
+  | .agg coll acc v =>
+    [⟨.stmt, "", [coll, acc], []⟩, ⟨.forL, "", [v], [coll]⟩, ⟨.openB, "", [], []⟩,
+     ⟨.stmt, "", [], [acc, v]⟩, ⟨.closeB, "", [], []⟩]
+
+/-- lines emitted when the blocks the argument left open are closed (after the call) -/
+def ArgShape.after : ArgShape → List CodeLine
+  | .first _ flag _ =>
+    [⟨.closeB, "", [], []⟩, ⟨.closeB, "", [], []⟩, ⟨.stmt, "", [], [flag]⟩, ⟨.openB, "", [], []⟩,
+     ⟨.stmt, "", [], []⟩, ⟨.closeB, "", [], []⟩]
+  | _ => []
+
+/-- the generated variables the text of the argument's value mentions -/
+def ArgShape.vars : ArgShape → List String
+  | .plain => []
+  | .first _ _ v => [v]
+  | .agg _ acc _ => [acc]
+
+def afterAll : List ArgShape → List CodeLine
+  | [] => []
+  | a :: as => afterAll as ++ a.after
+
+/-- the per-event code of a column whose value is the call: the arguments left to right, the line
+holding the call, then the blocks closed innermost first -/
+def columnCode (args : List ArgShape) (call : CodeLine) : List CodeLine :=
+  args.flatMap ArgShape.before ++ call :: afterAll args
+
+
 end FaxVerif.C12
